@@ -333,6 +333,193 @@ class ExecutePipelineLint:
         return exits_like_the_rendered_list(pipeline_violations, format, exc, exc_class, stdout, old)
 
 
+# ---- the other executors built by create_linter_command: the same statement, one contract each (same proof shape as
+# ---- _execute_magic_numbers_lint). Not under a full contract: _execute_nesting_lint, _execute_srp_lint, _execute_dry_lint
+# ---- (their option-override helpers carry C05 preconditions on the loaded configuration; covered by c06-exit-shape).
+DOC = "src/cli/linters/documentation.py::"
+RS = "src/cli/linters/rust.py::"
+
+
+@contract(CP + "_execute_improper_logging_lint", props=["C06"],
+          types=dict(params=ExecT, orchestrator=OrchInitT, improper_logging_violations=Violations, all_violations=Viols),
+          raises=["SystemExit", "Exception"], modifies=["stdout", "stderr"], exc=Int,
+          inline=["_setup_improper_logging_orchestrator", "_run_improper_logging_lint"])
+class ExecuteImproperLoggingLint:
+    def requires(params):
+        return params.config_file is None or len(params.config_file) == 0 or config_doc_ok(params.config_file)
+
+    def raises_when(params):
+        return True
+
+    def at_exit_code_and_output_agree(params, improper_logging_violations, exc, exc_class, stdout, old):
+        return exits_like_the_rendered_list(improper_logging_violations, params.format, exc, exc_class, stdout, old)
+
+
+@contract(CP + "_execute_method_property_lint", props=["C06"],
+          types=dict(params=ExecT, orchestrator=OrchInitT, method_property_violations=Violations, all_violations=Viols),
+          raises=["SystemExit", "Exception"], modifies=["stdout", "stderr"], exc=Int,
+          inline=["_setup_method_property_orchestrator", "_run_method_property_lint"])
+class ExecuteMethodPropertyLint:
+    def requires(params):
+        return params.config_file is None or len(params.config_file) == 0 or config_doc_ok(params.config_file)
+
+    def raises_when(params):
+        return True
+
+    def at_exit_code_and_output_agree(params, method_property_violations, exc, exc_class, stdout, old):
+        return exits_like_the_rendered_list(method_property_violations, params.format, exc, exc_class, stdout, old)
+
+
+@contract(CP + "_execute_stateless_class_lint", props=["C06"],
+          types=dict(params=ExecT, orchestrator=OrchInitT, stateless_class_violations=Violations, all_violations=Viols),
+          raises=["SystemExit", "Exception"], modifies=["stdout", "stderr"], exc=Int,
+          inline=["_setup_stateless_class_orchestrator", "_run_stateless_class_lint"])
+class ExecuteStatelessClassLint:
+    def requires(params):
+        return params.config_file is None or len(params.config_file) == 0 or config_doc_ok(params.config_file)
+
+    def raises_when(params):
+        return True
+
+    def at_exit_code_and_output_agree(params, stateless_class_violations, exc, exc_class, stdout, old):
+        return exits_like_the_rendered_list(stateless_class_violations, params.format, exc, exc_class, stdout, old)
+
+
+@contract(CP + "_execute_lazy_ignores_lint", props=["C06"],
+          types=dict(params=ExecT, orchestrator=OrchInitT, lazy_ignores_violations=Violations, all_violations=Viols),
+          raises=["SystemExit", "Exception"], modifies=["stdout", "stderr"], exc=Int,
+          inline=["_setup_lazy_ignores_orchestrator", "_run_lazy_ignores_lint"])
+class ExecuteLazyIgnoresLint:
+    def requires(params):
+        return params.config_file is None or len(params.config_file) == 0 or config_doc_ok(params.config_file)
+
+    def raises_when(params):
+        return True
+
+    def at_exit_code_and_output_agree(params, lazy_ignores_violations, exc, exc_class, stdout, old):
+        return exits_like_the_rendered_list(lazy_ignores_violations, params.format, exc, exc_class, stdout, old)
+
+
+@contract(CP + "_execute_lbyl_lint", props=["C06"],
+          types=dict(params=ExecT, orchestrator=OrchInitT, lbyl_violations=Violations, all_violations=Viols),
+          raises=["SystemExit", "Exception"], modifies=["stdout", "stderr"], exc=Int,
+          inline=["_setup_lbyl_orchestrator", "_run_lbyl_lint"])
+class ExecuteLbylLint:
+    def requires(params):
+        return params.config_file is None or len(params.config_file) == 0 or config_doc_ok(params.config_file)
+
+    def raises_when(params):
+        return True
+
+    def at_exit_code_and_output_agree(params, lbyl_violations, exc, exc_class, stdout, old):
+        return exits_like_the_rendered_list(lbyl_violations, params.format, exc, exc_class, stdout, old)
+
+
+@contract(CS + "_execute_stringly_typed_lint", props=["C06"],
+          types=dict(params=ExecT, orchestrator=OrchInitT, stringly_violations=Violations, all_violations=Viols),
+          raises=["SystemExit", "Exception"], modifies=["stdout", "stderr"], exc=Int,
+          inline=["_setup_stringly_typed_orchestrator", "_run_stringly_typed_lint"])
+class ExecuteStringlyTypedLint:
+    def requires(params):
+        return params.config_file is None or len(params.config_file) == 0 or config_doc_ok(params.config_file)
+
+    def raises_when(params):
+        return True
+
+    def at_exit_code_and_output_agree(params, stringly_violations, exc, exc_class, stdout, old):
+        return exits_like_the_rendered_list(stringly_violations, params.format, exc, exc_class, stdout, old)
+
+
+@contract(DOC + "_execute_file_header_lint", props=["C06"],
+          types=dict(params=ExecT, orchestrator=OrchInitT, file_header_violations=Violations, all_violations=Viols),
+          raises=["SystemExit", "Exception"], modifies=["stdout", "stderr"], exc=Int,
+          inline=["_setup_file_header_orchestrator", "_run_file_header_lint"])
+class ExecuteFileHeaderLint:
+    def requires(params):
+        return params.config_file is None or len(params.config_file) == 0 or config_doc_ok(params.config_file)
+
+    def raises_when(params):
+        return True
+
+    def at_exit_code_and_output_agree(params, file_header_violations, exc, exc_class, stdout, old):
+        return exits_like_the_rendered_list(file_header_violations, params.format, exc, exc_class, stdout, old)
+
+
+@contract(RS + "_execute_unwrap_abuse_lint", props=["C06"],
+          types=dict(params=ExecT, orchestrator=OrchInitT, unwrap_abuse_violations=Violations, all_violations=Viols),
+          raises=["SystemExit", "Exception"], modifies=["stdout", "stderr"], exc=Int,
+          inline=["_setup_unwrap_abuse_orchestrator", "_run_unwrap_abuse_lint"])
+class ExecuteUnwrapAbuseLint:
+    def requires(params):
+        return params.config_file is None or len(params.config_file) == 0 or config_doc_ok(params.config_file)
+
+    def raises_when(params):
+        return True
+
+    def at_exit_code_and_output_agree(params, unwrap_abuse_violations, exc, exc_class, stdout, old):
+        return exits_like_the_rendered_list(unwrap_abuse_violations, params.format, exc, exc_class, stdout, old)
+
+
+@contract(RS + "_execute_clone_abuse_lint", props=["C06"],
+          types=dict(params=ExecT, orchestrator=OrchInitT, clone_abuse_violations=Violations, all_violations=Viols),
+          raises=["SystemExit", "Exception"], modifies=["stdout", "stderr"], exc=Int,
+          inline=["_setup_clone_abuse_orchestrator", "_run_clone_abuse_lint"])
+class ExecuteCloneAbuseLint:
+    def requires(params):
+        return params.config_file is None or len(params.config_file) == 0 or config_doc_ok(params.config_file)
+
+    def raises_when(params):
+        return True
+
+    def at_exit_code_and_output_agree(params, clone_abuse_violations, exc, exc_class, stdout, old):
+        return exits_like_the_rendered_list(clone_abuse_violations, params.format, exc, exc_class, stdout, old)
+
+
+@contract(RS + "_execute_blocking_async_lint", props=["C06"],
+          types=dict(params=ExecT, orchestrator=OrchInitT, blocking_async_violations=Violations, all_violations=Viols),
+          raises=["SystemExit", "Exception"], modifies=["stdout", "stderr"], exc=Int,
+          inline=["_setup_blocking_async_orchestrator", "_run_blocking_async_lint"])
+class ExecuteBlockingAsyncLint:
+    def requires(params):
+        return params.config_file is None or len(params.config_file) == 0 or config_doc_ok(params.config_file)
+
+    def raises_when(params):
+        return True
+
+    def at_exit_code_and_output_agree(params, blocking_async_violations, exc, exc_class, stdout, old):
+        return exits_like_the_rendered_list(blocking_async_violations, params.format, exc, exc_class, stdout, old)
+
+
+@contract(PF + "_execute_string_concat_lint", props=["C06"],
+          types=dict(params=ExecT, orchestrator=OrchInitT, violations=Violations, all_violations=Viols),
+          raises=["SystemExit", "Exception"], modifies=["stdout", "stderr"], exc=Int,
+          inline=["_setup_and_validate", "_setup_performance_orchestrator", "_run_string_concat_lint"])
+class ExecuteStringConcatLint:
+    def requires(params):
+        return params.config_file is None or len(params.config_file) == 0 or config_doc_ok(params.config_file)
+
+    def raises_when(params):
+        return True
+
+    def at_exit_code_and_output_agree(params, violations, exc, exc_class, stdout, old):
+        return exits_like_the_rendered_list(violations, params.format, exc, exc_class, stdout, old)
+
+
+@contract(PF + "_execute_regex_in_loop_lint", props=["C06"],
+          types=dict(params=ExecT, orchestrator=OrchInitT, violations=Violations, all_violations=Viols),
+          raises=["SystemExit", "Exception"], modifies=["stdout", "stderr"], exc=Int,
+          inline=["_setup_and_validate", "_setup_performance_orchestrator", "_run_regex_in_loop_lint"])
+class ExecuteRegexInLoopLint:
+    def requires(params):
+        return params.config_file is None or len(params.config_file) == 0 or config_doc_ok(params.config_file)
+
+    def raises_when(params):
+        return True
+
+    def at_exit_code_and_output_agree(params, violations, exc, exc_class, stdout, old):
+        return exits_like_the_rendered_list(violations, params.format, exc, exc_class, stdout, old)
+
+
 # ------------------------------------------------------------------------------------------ all 20 executors: shape
 import ast as _ast  # noqa: E402
 import glob as _glob  # noqa: E402
